@@ -120,6 +120,12 @@ def _stale_none(state):
     return set(state.get("nones") or []) & {k for k, _ in state["o"][1]}
 
 
+def _none_with_default(case, sa, sb):
+    """a field with a default is recorded as explicitly None on exactly one side"""
+    names = {n for n, _ in case["cls"].get("defaults") or []}
+    return bool(names & (set(sa.get("nones") or []) ^ set(sb.get("nones") or [])))
+
+
 def judge(case, impl, model):
     msg = P.correspondence(case, impl, model)
     fails = []
@@ -146,6 +152,8 @@ def judge(case, impl, model):
                     imm = set(case["cls"].get("immFields") or []) | {
                         nm for nm, fd in case["cls"]["fields"] if fd.get("k") in ("setAny", "setOf") and fd.get("imm")}
                     which = "none-recorded-over-immutable-field" if stale <= imm else "none-recorded-over-stored-value"
+                elif not eq[i][j] and case["cls"].get("undef") and _none_with_default(case, impl["states"][i], impl["states"][j]):
+                    which = "explicit-none-reads-default"
                 fails.append((f"eq-vs-readback:{which}", f"a == b is {eq[i][j]} but field-wise equality of the values read back is "
                               f"{impl['fieldwise'][i][j]}: a={show(i)} b={show(j)}"))
             if i == j:
